@@ -34,6 +34,10 @@ func main() {
 		from, _ := strconv.Atoi(os.Args[5])
 		to, _ := strconv.Atoi(os.Args[6])
 		os.Exit(fw.ChildMain(os.Args[2], os.Args[3], seed, from, to, os.Args[7]))
+	case "c05kill":
+		seed, _ := strconv.ParseInt(os.Args[3], 10, 64)
+		ka, _ := strconv.ParseInt(os.Args[4], 10, 64)
+		os.Exit(KillMain(os.Args[2], seed, ka, os.Args[5]))
 	case "replay":
 		n := 10
 		os.Exit(fw.ReplayMain(os.Args[2], os.Args[3], n))
